@@ -1,2 +1,7 @@
+import Decstr.Props.C02
+import Decstr.Props.C07
 import Decstr.Props.C08
+import Decstr.Props.C11
+import Decstr.Props.C13
 import Decstr.Props.C16
+import Decstr.Props.C18
